@@ -8,6 +8,8 @@ cfg keys
                'l'  add_dependency(i, lit); add_dependency(lit, j)
                'la' add_dependency(i, lit); lit is a positional argument of j
                'll' dependency routed through a chain of two adjacent literals
+               'lla' chain of two literals that both survive pruning: the second is a positional argument of j,
+                    the first is an argument of an auxiliary call that is part of the (list) output
   hub        optional (preds, succs, as_arg): ONE literal shared by several
              predecessors and successors (exercises _prune_literal_if_trivial on
              both sides of m*n <= m+n)
@@ -64,6 +66,7 @@ class PlanHarness(e1.Harness):
         hub = cfg.get("hub")
         self.fns = []
         self.calls = []
+        self.aux = []
         hub_lit = None
         if hub:
             hub_lit = plan.lit("HUB")
@@ -90,6 +93,12 @@ class PlanHarness(e1.Harness):
                     lit = plan.lit(f"L{i}{j}")
                     plan.add_dependency(self.calls[i], lit)
                     args.append(lit)
+                if kind == "lla":
+                    l1, l2 = plan.lit(f"La{i}{j}"), plan.lit(f"Lb{i}{j}")
+                    plan.add_dependency(self.calls[i], l1)
+                    plan.add_dependency(l1, l2)
+                    args.append(l2)
+                    self.aux.append(plan.call(_aux, l1))
                 if kind == "ll":
                     # literal creation order alternates so both removal orders occur
                     if (i + j) % 2:
@@ -135,7 +144,7 @@ class PlanHarness(e1.Harness):
         elif isinstance(out, int):
             self.output, self.needed = self.calls[out], {out}
         else:
-            self.output, self.needed = [self.calls[i] for i in out], set(out)
+            self.output, self.needed = [self.calls[i] for i in out] + list(self.aux), set(out)
         need = set(self.needed)
         for i in list(need):
             need |= self.anc[i]
@@ -309,7 +318,11 @@ class PlanHarness(e1.Harness):
             return "OUT"
         if isinstance(out, int):
             return vals.get(out)
-        return [vals.get(i) for i in out]
+        return [vals.get(i) for i in out] + ["aux"] * len(self.aux)
+
+
+def _aux(*a):
+    return "aux"
 
 
 EDGE_KINDS = ("p", "k", "d", "pd", "l", "la", "ll")
